@@ -51,6 +51,12 @@ func c17Ops() []c17Op {
 	addC(k1, 1)
 	addC(k1, 2)
 	addC(k2, 1)
+	// the series of tag value 2 reached through a scope that already carries the key with value 1 (same tag keys,
+	// another value: another series of the family, whichever way its scope was derived)
+	ops = append(ops, c17Op{"c{k:1}.Tagged{k:2} inc 4", func(r tally.Scope, m *c17Model) {
+		r.Tagged(k1).Tagged(k2).Counter("c").Inc(4)
+		m.counters[lbl("c", k2)] += 4
+	}})
 	for _, v := range []float64{1.5, -2} {
 		v := v
 		ops = append(ops, c17Op{fmt.Sprintf("g upd %v", v), func(r tally.Scope, m *c17Model) {
